@@ -180,6 +180,14 @@ func runOne(c *Case) {
 		c.Impl = "no-exec:" + c.Op
 		return
 	}
+	// a panic on the calling goroutine that an exec did not classify itself: the input is the
+	// failing input (panics on other goroutines are caught by the isolated workers)
+	defer func() {
+		if rec := recover(); rec != nil {
+			c.Impl = "panic"
+			c.Oracle = fmt.Sprintf("fail:panic: %v at %s", rec, panicSite())
+		}
+	}()
 	r := f(c.Args)
 	c.Impl, c.Oracle, c.Soft, c.Extra = r.Impl, r.Oracle, r.Soft, r.Extra
 	if r.Args != nil {
